@@ -1,6 +1,6 @@
 (* C14 — building and applying a filter never panics or hangs. *)
 From Coq Require Import ZArith Lia.
-From Syz Require Import QEval QLexProofs QSemProofs QParseProofs.
+From Syz Require Import QEval QLexProofs QSemProofs QParseProofs QParseFuel.
 Open Scope N_scope.
 
 (* The lexer model has no partial operation left (the slice expressions of readIdentifierOrKeyword,
@@ -24,10 +24,16 @@ Theorem C14_apply_total : forall re n doc, exists r : option bool, apply_filter 
 Proof. exact apply_filter_total. Qed.
 Print Assumptions C14_apply_total.
 
-(* The parser model runs on explicit fuel 12*|input|+40; that this bound is never exhausted is NOT
-   proved (C14_build_safe_partial): the correspondence run reports any input on which the model
-   answers FUEL, and the implementation's panics and time are observed directly. The instance that
-   used to panic: *)
+(* The parser model runs on explicit fuel 12*|input|+40.  That bound is never exhausted, for every input
+   and every number-literal oracle: each function of the recursive descent needs at most a constant plus
+   8 units per remaining token, every loop iteration and every nesting level consumes a token, and a token
+   consumes a character.  So building a filter terminates with a tree or an error after work bounded by the
+   length of the text — no hang, no stack exhaustion in the model. *)
+Theorem C14_parse_total : forall parse_float input, parse parse_float input <> PFuel.
+Proof. exact parse_never_out_of_fuel. Qed.
+Print Assumptions C14_parse_total.
+
+(* The instance that used to panic: *)
 Theorem C14_does_not_instance : parse pf_small t_does_not = PErr.
 Proof. exact does_not_at_end_is_an_error_not_a_panic. Qed.
 Print Assumptions C14_does_not_instance.
